@@ -2,6 +2,8 @@
 # usage: tools/run_seeded_subset.sh <max batch> <Cxx>... — like run_seeded.sh, for the saved changes of the given properties
 # whose origin batch is at most <max batch> (the later ones were tried when they were saved)
 cd /verif
+. /verif/tools/repo_patch.sh
+repo_require_clean
 mkdir -p work/mut-evidence
 export VERIF_EVIDENCE_DIR=/verif/work/mut-evidence
 maxb="$1"; shift
@@ -9,9 +11,9 @@ for p in "$@"; do
   for d in seeded/$p/mutation_*; do
     b=$(python3 -c "import json,re,sys; m=json.load(open('$d/meta.json')); r=re.search(r'batch (\d+)', m.get('origin','')); print(r.group(1) if r else 0)" 2>/dev/null)
     [ "$b" -le "$maxb" ] || continue
-    if ! git -C /repo apply "/verif/$d/patch.diff" 2>/dev/null; then echo "$d: PATCH-DOES-NOT-APPLY"; continue; fi
+    if ! repo_apply "/verif/$d/patch.diff"; then echo "$d: PATCH-DOES-NOT-APPLY"; continue; fi
     out=$(./check "$p" --tier quick 2>&1 | grep -E "^(VIOLATION|OK)" | tail -1)
-    git -C /repo checkout -- . ; git -C /repo clean -fdq py 2>/dev/null
+    repo_restore
     case "$out" in VIOLATION*) echo "$d: caught ($out)";; *) echo "$d: MISSED ($out)";; esac
   done
 done
